@@ -106,7 +106,7 @@ PROPS = {
     "C08": {
         "title": "Control frames: handlers see each frame once; ping answered, close echoed",
         "level": "exploration",
-        "rule": "rapid-generated conformant streams with emphasised control traffic (0-5 ping/pong per message at any fragment boundary incl. back to back, payloads 0..125 boundary-biased, close with must-accept codes and UTF-8 reasons up to 123 bytes or empty body) x both roles x handler modes {default, custom, failing at occurrence k} x read programs with abandonment; oracle: handler log == control frames in wire order, each once, exact payload/code; each handler runs while the application is on the right message and, for uncompressed messages read through NextReader, after exactly the bytes that precede the frame; default handlers => pongs with identical payload in order then one close with the same status (empty for empty), reads fail with CloseError{code,text} permanently; a handler error is returned by the read in progress and by every later read, and nothing after it is handled; when the application has already sent its own close frame (locally initiated closing handshake) nothing more is written but the frames still reach the handlers and reads still end with the CloseError of the received close. Close reasons include U+FFFD, U+FFFE, U+10FFFF, U+E000, NUL and DEL. Non-trivial = control frame between fragments, or 125-byte payload, or close with reason, or handler error.",
+        "rule": "rapid-generated conformant streams with emphasised control traffic (0-5 ping/pong per message at any fragment boundary incl. back to back, payloads 0..125 boundary-biased, close with must-accept codes and UTF-8 reasons up to 123 bytes or empty body) x both roles x handler modes {default, custom, failing at occurrence k} x read programs with abandonment; oracle: handler log == control frames in wire order, each once, exact payload/code; each handler runs while the application is on the right message and, for uncompressed messages read through NextReader, after exactly the bytes that precede the frame; default handlers => pongs with identical payload in order then one close with the same status (empty for empty), reads fail with CloseError{code,text} permanently; a handler error is returned by the read in progress and by every later read, and nothing after it is handled; when the application has already sent its own close frame (locally initiated closing handshake) nothing more is written but the frames still reach the handlers and reads still end with the CloseError of the received close. Close reasons include U+FFFD, U+FFFE, U+10FFFF, U+E000, NUL and DEL. A quarter of the cases set a read limit equal to the largest message's wire size (control frames belong to no message: nothing may change). Non-trivial = control frame between fragments, or 125-byte payload, or close with reason, or handler error.",
         "assumptions": TRUST + ["for compressed messages handler/data order is asserted at message granularity (flate read-ahead)"],
         "level_text": "Bounded random exploration of control-frame placements and payloads against the wire-order model.",
         "level_note": "Write-back bytes are decoded by the independent decoder.",
@@ -157,7 +157,7 @@ PROPS = {
     "C11": {
         "title": "Documented concurrency contract: race-free, frames atomic, WriteControl bounded",
         "level": "exploration",
-        "rule": "actors: 1 writer running a rapid-generated write program (all APIs, invalid requests, optional close), 1 reader with default handlers fed 0-3 pings and an optional close, 0-3 WriteControl callers (ping/pong/close, zero or finite deadlines), Close at a generated moment. part owned-schedule (testing/synctest bubble, fake clock, -race): every transport Write blocks at a gate; a generated schedule of {start actor, grant oldest write, advance fake time 1..1100 ms, Close} owns the interleaving, so a writer can be held inside the critical section past other callers' deadlines. Oracle: never two goroutines inside transport Write; the wire decodes (independent decoder) to whole frames with control frames only between frames; the writer's messages arrive in order with exact payloads; a control frame is on the wire iff its call returned nil; a WriteControl that failed returned a timeout net.Error no later than its deadline on the fake clock (exact), wrote nothing, and the writer's later calls still succeed; a WriteControl that succeeded reached the transport no later than its deadline; nobody is stuck after all writes are granted and 20 s of fake time; nothing follows a close frame and calls started after it fail. part free-running-race: the same actors as real parallel goroutines over an ungated transport that yields inside Write; oracle = race detector report file unchanged (GORACE log_path) + the same wire oracle. parts shared-prepared-message / shared-pool: one PreparedMessage, respectively one instrumented write buffer pool, shared by up to 8 connections each driven by its own goroutine under the race detector (the concurrent legs of C19 and C20). Non-trivial = a call started while another write was held in the transport, or a WriteControl timed out, or a shared-object case.",
+        "rule": "actors: 1 writer running a rapid-generated write program (all APIs, invalid requests, optional close), 1 reader with default handlers fed 0-3 pings and an optional close, 0-3 WriteControl callers (ping/pong/close, zero or finite deadlines), Close at a generated moment. part owned-schedule (testing/synctest bubble, fake clock, -race): every transport Write blocks at a gate; a generated schedule of {start actor, grant oldest write, advance fake time 1..1100 ms, Close} owns the interleaving, so a writer can be held inside the critical section past other callers' deadlines. Oracle: never two goroutines inside transport Write; the transport's write deadline is never changed while another caller's Write is inside the transport; the wire decodes (independent decoder) to whole frames with control frames only between frames; the writer's messages arrive in order with exact payloads; a control frame is on the wire iff its call returned nil; a WriteControl that failed returned a timeout net.Error no later than its deadline on the fake clock (exact), wrote nothing, and the writer's later calls still succeed; a WriteControl that succeeded reached the transport no later than its deadline; nobody is stuck after all writes are granted and 20 s of fake time; nothing follows a close frame and calls started after it fail. part free-running-race: the same actors as real parallel goroutines over an ungated transport that yields inside Write; oracle = race detector report file unchanged (GORACE log_path) + the same wire oracle. parts shared-prepared-message / shared-pool: one PreparedMessage, respectively one instrumented write buffer pool, shared by up to 8 connections each driven by its own goroutine under the race detector (the concurrent legs of C19 and C20). Non-trivial = a call started while another write was held in the transport, or a WriteControl timed out, or a shared-object case.",
         "assumptions": TRUST + ["schedules are explored at the granularity API call / transport write / lock acquisition, not instruction level; data-race freedom is only observed on executed schedules (race detector)", "the stepped scheduler adds happens-before edges, hence the separate free-running leg for races"],
         "level_text": "Bounded exploration of generated schedules with an owned scheduler and clock (deterministic), plus randomized real-parallel stress under the race detector. This is the weakest fit for property-based testing: 'for all schedules' is sampled.",
         "level_note": "Needs go1.26.8 (testing/synctest) and -race; both are pre-installed.",
@@ -177,7 +177,7 @@ PROPS = {
     "C12": {
         "title": "Server handshake: upgrade iff request is a valid opening handshake; correct 101",
         "level": "exploration",
-        "rule": "requests are generated from the handshake grammar as raw bytes (method; Connection/Upgrade token lists over 1-2 lines with arbitrary OWS, case variants, extra tokens and near-miss tokens such as websockets/xupgrade/upgrade2; version values and lists; keys = base64 of 0..32 bytes, bad alphabet, wrong padding, missing, doubled; own/foreign/absent origin with default/allow/deny policy; subprotocol offers; 22 extension offers incl. parameters, quoted strings with escaped quotes that contain the extension name, near-miss names) in three modes (all elements valid / exactly one faulty element / free mix), parsed by http.ReadRequest, and given to Upgrade with generated Upgrader settings (Subprotocols nil/empty/lists, EnableCompression, buffers, pool) and responseHeader maps whose values are arbitrary bytes incl. CR, LF, NUL. An independent classifier (RFC 6455 4.2.1, RFC 7230 list syntax) says valid / invalid(faults) / unspecified. valid => Conn returned, hijacked once, and the bytes written are exactly one response accepted by a strict parser (CRLF only, no bare CR/LF): 101, Upgrade: websocket, Connection: Upgrade, Accept = independent SHA-1 digest of the key, subprotocol in offers AND Subprotocols (and present when they intersect), extension announcement only if enabled AND offered (never when the name occurs only inside a quoted-string), header-name multiset == protocol headers + application headers (no injected line), nothing after the blank line. invalid => HandshakeError, never hijacked, connection not closed (it belongs to net/http), status >= 400 (403 when origin is the only fault, 426 + Upgrade header when the Upgrade token is the only fault), nothing written to the raw connection. Non-trivial = valid request with multi-token lists or several lines, invalid request with exactly one fault, response header values with control bytes.",
+        "rule": "requests are generated from the handshake grammar as raw bytes (method; Connection/Upgrade token lists over 1-2 lines with arbitrary OWS, case variants, extra tokens and near-miss tokens such as websockets/xupgrade/upgrade2; version values and lists; keys = base64 of 0..32 bytes, bad alphabet, wrong padding, missing, doubled; own/foreign/absent origin with default/allow/deny policy; subprotocol offers; 22 extension offers incl. parameters, quoted strings with escaped quotes that contain the extension name, near-miss names) in three modes (all elements valid / exactly one faulty element / free mix), parsed by http.ReadRequest, and given to Upgrade with generated Upgrader settings (Subprotocols nil/empty/lists, EnableCompression, buffers, pool) and responseHeader maps whose values are arbitrary bytes incl. CR, LF, NUL. An independent classifier (RFC 6455 4.2.1, RFC 7230 list syntax) says valid / invalid(faults) / unspecified. valid => Conn returned, hijacked once, and the bytes written are exactly one response accepted by a strict parser (CRLF only, no bare CR/LF): 101, Upgrade: websocket, Connection: Upgrade, Accept = independent SHA-1 digest of the key, subprotocol in offers AND Subprotocols (and present when they intersect), extension announcement only if enabled AND offered (never when the name occurs only inside a quoted-string), header-name multiset == protocol headers + application headers (no injected line), nothing after the blank line. invalid => HandshakeError, never hijacked, connection not closed (it belongs to net/http), status >= 400 (403 when origin is the only fault, 426 + Upgrade header whenever the Upgrade token is missing and the Connection header is valid, whatever else is wrong), nothing written to the raw connection. Non-trivial = valid request with multi-token lists or several lines, invalid request with exactly one fault, response header values with control bytes.",
         "assumptions": TRUST + ["unspecified zones (empty list elements, non-token junk, version lists containing 13, several key/origin/protocol lines, non-canonical base64) are only checked for consistency"],
         "level_text": "Bounded random exploration of the request grammar and Upgrader settings against an independent classifier and a strict response parser.",
         "level_note": "net/http's request parser is the trusted front end (requests it refuses are counted and discarded).",
@@ -187,7 +187,7 @@ PROPS = {
     "C13": {
         "title": "Default origin policy admits same-origin requests only",
         "level": "exploration",
-        "rule": "(Host, Origin) pairs: Host from 13 shapes (names, ports, IPv4/IPv6 literals, mixed case, hosts containing k/s/i); Origin derived by one of 21 constructions: absent, same, same in another ASCII case, one-character edit, added/removed label, prefix/suffix look-alike, different / missing / added (default) port, userinfo tricks (host@evil, host:80@evil, evil@host), code points that fold to ASCII only under Unicode folding (U+212A, U+017F, U+0130, U+0131, full-width, Greek omicron), percent-encoded host bytes incl. malformed escapes, null, junk, fragment/query/path tricks, other hosts, backslashes, IPv6 spelling variants, scheme-less. Each pair is tried both as a directly constructed request and through http.ReadRequest. Oracle: safety - if Upgrade succeeds the Origin was absent or an independent RFC 3986 authority extractor (last @, percent-decoded) yields host[:port] equal to Host under ASCII-only folding; liveness - absent Origin and clean same-origin constructions are upgraded; every refusal is 403 + HandshakeError without hijack. Non-trivial = origin host within 2 code-point edits of Host, Unicode-only fold, or same-origin differing in case.",
+        "rule": "(Host, Origin) pairs: Host from 13 shapes (names, ports, IPv4/IPv6 literals, mixed case, hosts containing k/s/i); Origin derived by one of 21 constructions: absent, same, same in another ASCII case, one-character edit, added/removed label, prefix/suffix look-alike, different / missing / added (default) port, userinfo tricks (host@evil, host:80@evil, evil@host), code points that fold to ASCII only under Unicode folding (U+212A, U+017F, U+0130, U+0131, full-width, Greek omicron), percent-encoded host bytes incl. malformed escapes, null, junk, fragment/query/path tricks, other hosts, backslashes, IPv6 spelling variants, scheme-less. Each pair is tried as a directly constructed request and through http.ReadRequest, each with an origin-form and with an absolute-form request target. Oracle: safety - if Upgrade succeeds the Origin was absent or an independent RFC 3986 authority extractor (last @, percent-decoded) yields host[:port] equal to Host under ASCII-only folding; liveness - absent Origin and clean same-origin constructions are upgraded; every refusal is 403 + HandshakeError without hijack. Non-trivial = origin host within 2 code-point edits of Host, Unicode-only fold, or same-origin differing in case.",
         "assumptions": TRUST,
         "level_text": "Bounded random exploration of adversarial near-miss origins against an independent origin-host extractor.",
         "level_note": "The extractor is written from RFC 3986 section 3.2 in harness/wsref.",
